@@ -111,7 +111,7 @@ ScanMarker(raw, cur, sz, sbl) ==
 ScanRegex(raw, cur, sz, sbl) ==
     LET w == Window(raw, cur, sbl) IN
     IF sz.r = "EOS"
-    THEN LET next == cur + (Len(raw) - cur) IN
+    THEN LET next == cur + Max2(Len(raw) - cur, 0) IN      \* (never negative: repaired F13)
          [ok |-> TRUE, cur |-> next, v |-> PySlice(raw, cur, next),
           reads |-> <<[WindowRd(raw, cur, sbl) EXCEPT !.open = TRUE], Rd(raw, cur, next)>>, delim |-> <<>>, remember |-> FALSE]
     ELSE LET mt == RegexSearch(sz.r, w)
@@ -162,7 +162,7 @@ UInit(root, start) ==
 OwnerIdx(stack) == CHOOSE i \in 1..Len(stack) :
                       stack[i].kind = "pkt" /\ \A j \in (i + 1)..Len(stack) : stack[j].kind # "pkt"
 Owner(stack) == stack[OwnerIdx(stack)]
-EnvU(raw, m) == [vals |-> Owner(m.stack).vals, raw |-> raw, cur |-> m.cur]
+EnvU(raw, m) == [vals |-> Owner(m.stack).vals, raw |-> raw, cur |-> m.cur, root |-> m.stack[1].vals]
 CurFieldOf(dp, fr) == dp[fr.cls].fields[fr.idx]
 
 \* the name under which a field is listed (a described field is listed under its hidden name)
@@ -175,7 +175,7 @@ RECURSIVE AfterUnpackHooks(_, _, _)
 AfterUnpackHooks(fs, i, vals) ==       \* [ok, name]
     IF i > Len(fs) THEN [ok |-> TRUE, name |-> ""]
     ELSE IF fs[i].k = "Int" /\ fs[i].desc.kind = "verify"
-         THEN LET r == Eval(fs[i].desc.e, [vals |-> vals, raw |-> <<>>, cur |-> 0]) IN
+         THEN LET r == Eval(fs[i].desc.e, [vals |-> vals, raw |-> <<>>, cur |-> 0, root |-> <<>>]) IN
               IF r.ok /\ HasVal(vals, fs[i].name) /\ r.v = Lookup(vals, fs[i].name)
               THEN AfterUnpackHooks(fs, i + 1, vals)
               ELSE [ok |-> FALSE, name |-> ListedName(fs[i])]
@@ -344,7 +344,7 @@ DescRead(f, vals, explicit) ==       \* [ok, v]
     ELSE IF f.desc.kind = "autolen"
          THEN LET t == IF HasVal(vals, f.desc.of) THEN Lookup(vals, f.desc.of) ELSE NoneV IN
               IF t.t \in {"bytes", "list"} THEN Ok(IntV(Len(PL(t)))) ELSE Raise
-         ELSE Eval(f.desc.e, [vals |-> vals, raw |-> <<>>, cur |-> 0])
+         ELSE Eval(f.desc.e, [vals |-> vals, raw |-> <<>>, cur |-> 0, root |-> <<>>])
 
 RECURSIVE SyncVals(_, _, _, _)
 SyncVals(fs, i, vals, explicit) ==      \* [ok, vals, name]
@@ -379,7 +379,7 @@ UnwindP(dp, p) ==
               ELSE p.err
     IN [p EXCEPT !.stack = Pop(p.stack), !.err = e, !.st = IF Len(p.stack) = 1 THEN "fail" ELSE "unwind"]
 
-EnvP(p) == [vals |-> Owner(p.stack).vals, raw |-> <<>>, cur |-> p.frag.cur]
+EnvP(p) == [vals |-> Owner(p.stack).vals, raw |-> <<>>, cur |-> p.frag.cur, root |-> p.stack[1].vals]
 
 \* fragments.append(bytes): [ok, p]
 PAppend(p, s) ==
